@@ -317,6 +317,9 @@ type Tree struct {
 	inline, _switch, Ast bool
 	Strict               bool
 	werr                 error
+	// undefined holds the names that are referenced but have no definition
+	// (link creates an empty stand-in rule for each).
+	undefined map[string]bool
 
 	Generator       string
 	RuleNames       []*node
@@ -570,6 +573,10 @@ func (t *Tree) link(countsForRule *[TypeLast]uint, n *node, counts *[TypeLast]ui
 			implicitPush.PushBack(emptyRule.Copy())
 			t.PushBack(emptyRule)
 			t.RulesCount++
+			if t.undefined == nil {
+				t.undefined = make(map[string]bool)
+			}
+			t.undefined[name] = true
 
 			t.Rules[name] = emptyRule
 			t.RuleNames = append(t.RuleNames, emptyRule)
@@ -1250,7 +1257,8 @@ func (t *Tree) Compile(file string, args []string, out io.Writer) (err error) {
 			continue
 		}
 		expression := element.Front()
-		if expression.GetType() == TypeNil {
+		if expression.GetType() == TypeNil || t.undefined[element.String()] {
+			// no code is emitted for these, so they take no label either
 			continue
 		}
 		ko := label
@@ -1290,10 +1298,13 @@ func (t *Tree) Compile(file string, args []string, out io.Writer) (err error) {
 			continue
 		}
 		expression := element.Front()
-		if implicit := expression.Front(); expression.GetType() == TypeNil || implicit.GetType() == TypeNil {
-			if element.String() != "PegText" {
-				t.warn(fmt.Errorf("rule '%v' used but not defined", element))
-			}
+		if t.undefined[element.String()] {
+			t.warn(fmt.Errorf("rule '%v' used but not defined", element))
+			_print("\n  nil,")
+			continue
+		}
+		if expression.GetType() == TypeNil {
+			// the stand-in for PegText
 			_print("\n  nil,")
 			continue
 		}
